@@ -71,6 +71,15 @@ CLAIMED = {
  "C19": ("Lean 4: theorems about the model of Arbiter.iter_watchers / _start_watchers / Watcher.spawn_processes (the sort is a stable descending sort for every list; which list each entry point hands to the start loop; the loop awaits one watcher's _start, whose spawn loop has finished, before the continuation touches the next; exact timers for the global and per-watcher warmup, with the arithmetic of the truncated subtraction) + differential correspondence of the core model with the real code on a simulated kernel with virtual time",
          "C19_sorted_desc / _asc, C19_sort_perm, C19_sort_stable(_pair), C19_iter_watchers_sorted / _perm, C19_sort_uids_sorted, C19_start_uses_priority_order, C19_start_watchers_is_loop, C19_start_cmd_uses_priority_order, C19_restart_cmd_all, C19_start_cmd_several, C19_restart_several_then_start, C19_sequential(_exception), C19_start_awaits_spawn, C19_autostart_false_skipped(_exec), C19_start_watchers_done, C19_global_warmup_between_watchers, C19_spawn_pacing(_exact,_stopped), C19_spawn_started_now, C19_all_spawned_before_return. The end-to-end order and spacing of spawn calls over whole start sequences (with deaths in between) is checked on the implementation's kernel log by the oracle.",
          "DESIGN.md 5 (C19)", CORE_NOTE),
+ "C05": ("Lean 4: theorems about the model of the controller dispatch and the waits of the coroutines — read-only commands are independent of the exclusive slot, never return a future, change nothing but kernel read ticks and are answered inside handle_message; non-waiting accepted requests are answered before the operation has run; kill_process / spawn_processes / the start loop wait only through timers (the kernel's `slept` counter and the `blocked` flag are untouched); reap_process's waitpid loop is the only blocking wait and does not sleep for a zombie or a non-child; a kill suspends at most pollsOf(graceful_timeout) times of 100 ms — plus differential correspondence of the core model with the real code, where a spinning reap loop is observed as `blocked`",
+         "C05_readonly_independent_of_slot, C05_readonly_changes_nothing, C05_readonly_never_conflicts, C05_readonly_replies_in_same_step, C05_nonwaiting_replies_at_once, C05_nonwaiting_reply_is_written, C05_kill_wait_is_nonblocking(_top), C05_spawn_wait_is_nonblocking, C05_arb_warmup_is_a_sleeper, C05_only_reap_sleeps, C05_blocked_only_from_reap_wait, C05_reap_wait_sleeps_only_while_running, C05_reap_zombie_does_not_sleep, C05_reap_echild_does_not_sleep, C05_kill_timer_reenters_loop, C05_kill_bounded, C05_kill_ends_at_polls, C05_kill_total_wait. Not a theorem: that every accepted request finishes within the sum of the applicable timeouts along every schedule (finite liveness over many timer steps) and that reap_process is never entered for a live worker: the oracle checks on every generated scenario that no step hangs (`blocked`), that read-only requests are answered in their own step also while an operation is in flight, and that waiting requests are answered within graceful_timeout + warmup bounds of virtual time.",
+         "DESIGN.md 5 (C05)", CORE_NOTE),
+ "C08": ("Lean 4: shutdown state machine — a termination signal dispatches quit when the slot is free and otherwise re-arms a 100 ms timer that runs the same handler again (never dropped); an accepted quit sets `stopping` for ever (invariant along all runs), stops a permutation of all registered watchers, sets loop-stop, and the loop's exit closes both sockets for ever; nothing is published or answered after the close; no stimulus other than the loop exit closes anything (generic preservation with the close writer removed); the ok reply of quit precedes the close. Pid file — theorems about a model of Pidfile.create/validate/unlink and the circusd epilogue. Differential correspondence of both models with the real code",
+         "C08_sigquit_dispatches_when_free, C08_sigquit_retries_when_busy, C08_sigquit_timer_fires, C08_sigquit_resume_queues_callback, C08_sigquit_callback_retries, C08_stopping_is_forever, C08_quit_sets_stopping, C08_no_respawn_when_stopping, C08_no_reload_when_stopping, C08_stop_targets_every_watcher, C08_stop_starts_every_stop, C08_stop_tail_sets_loop_stop, C08_step_tail_closes, C08_step_tail_keeps_running, C08_loop_stop_closes_everything, C08_close_is_idempotent, C08_closed_is_forever, C08_nothing_published_after_close, C08_stimulus_never_closes, C08_dispatch_never_closes, C08_quit_reply_before_close; C08_pidfile_* (Props/C08Pidfile.lean). Not a theorem: the end-to-end statement 'after quit the run ends with no worker alive' over all schedules (local chain + C02_stop_completes proved; the oracle checks survivors, zombies and closed sockets at the end of every generated scenario that shuts down, with the signal arriving at every point of in-flight operations). Managed sockets, unix-socket files and the process exit status are outside the core model (C07 layer / not modelled).",
+         "DESIGN.md 5 (C08)", CORE_NOTE),
+ "C09": ("Lean 4: theorems about the model of the event publications — wait-status decoding for all exit codes and signals; reap_process pops the pid before it publishes, publishes exactly one reap event carrying the decoded status, nothing for an unlisted pid, and is idempotent; spawn_process publishes exactly one spawn event for exactly the adopted pid iff it reports a started worker (none on veto, exec failure, retries exhausted); start/stop events are adjacent to the status writes — plus differential correspondence of the core model with the real code (every published event of every step is diffed)",
+         "C09_exit_code_of_exit, C09_exit_code_of_signal(_zero), C09_exit_code_of_exit_nonneg, C09_reap_event_carries_exit_code(_waited), C09_reap_event_after_poll, C09_poll_caches_exit_code, C09_no_reap_event_for_unlisted, C09_reap_pops_first, C09_reap_at_most_once_per_call, C09_reap_process_publishes_only_its_pid, C09_spawn_event_exactly_one, C09_no_spawn_event_unless_started, C09_no_spawn_event_on_veto, C09_start_event_agrees_with_status, C09_stop_event_agrees_with_status, C09_start_stop_events_agree_with_status. Not a theorem: the run-level statements (at most one reap event per pid along every run; the spawn-without-reap set equals the live set at every quiescent point): the oracle reconstructs the live set from the event stream of every generated scenario and compares it with the kernel table.",
+         "DESIGN.md 5 (C09)", CORE_NOTE),
 }
 NOT_YET = "not decided by the machinery in this revision (model layer not built yet); not claimed"
 NOT_APPLICABLE = {}
